@@ -1095,3 +1095,97 @@ func TestC15Structs(t *testing.T) {
 	st.Exhaustive["C15.struct-pipes"] = fmt.Sprintf("pipe law on a Go struct document: %d left expressions A x %d right expressions B (half of the cells): %d pairs", len(richLHS)*len(richOps)*7, len(richPipeRHS), n)
 	st.mu.Unlock()
 }
+
+// ---------------------------------------------------------------------------
+// C11 on typed documents: a document is whatever Search accepts, and typed slices and
+// structs take separate (reflection) code paths through every projection kind.
+
+func init() { predicates["hwstrict"] = predHWStrict }
+
+// predHWStrict: Expr on the hand-written struct document. The reference model, run on the
+// generic twin, says whether an error must surface.
+func predHWStrict(c Case) (r Result) {
+	// a context that hands a typed slice to a function (other than length) is outside the
+	// equivalence C18 states: there only "an error that must surface does surface" is judged
+	fnCtx := c.Extra["fn"] == true
+	if !fnCtx {
+		r = predHWEquiv(c)
+		if r.Violation != "" || r.Discard != "" {
+			return
+		}
+	}
+	expr := c.expr()
+	doc := hwDocValue()
+	twin, _ := normalise(struct {
+		Name  string
+		Items []*hwInner
+		Inner hwInner
+		Ptr   *hwInner
+		Nums  []float64
+		Strs  []string
+	}{doc.Name, doc.Items, doc.Inner, doc.Ptr, doc.Nums, doc.Strs})
+	n, st, perr := ref.ParseText(expr)
+	if perr != nil || st != ref.LexOK {
+		r.Discard = "generator:not-a-sentence"
+		return
+	}
+	ev := &ref.Ev{}
+	_, werr := ev.Eval(n, twin)
+	if ev.Ambiguous {
+		r.Discard = "ambiguous:" + ev.Why
+		return
+	}
+	r.Nontrivial = werr != nil
+	o := libSearch(expr, doc)
+	if werr != nil {
+		r.class("typed.error-must-surface")
+		if o.Panic != nil || o.Err == nil {
+			r.Violation = "an error raised by an evaluated sub-expression was swallowed on a typed (struct/slice) document"
+			r.Expected, r.Got = "error ("+werr.Error()+")", showOut(o)
+			return
+		}
+		if o.Val != nil {
+			r.Violation = "Search returned a value together with the error"
+			r.Got = show(o.Val)
+		}
+	} else {
+		r.class("typed.no-error")
+		if o.Err != nil && !fnCtx {
+			r.Violation = "Search fails on a typed document where the specification gives a value"
+			r.Got = showOut(o)
+		}
+	}
+	return
+}
+
+var hwStrictCtx = []string{"Nums[*].%s", "Nums[?@ > `0`].%s", "Nums[?@ > `9`].%s", "Nums[1:].%s", "Nums[::-1].%s", "Nums[].%s", "Strs[*].%s", "Strs[?@ == 'a'].%s", "Strs[?@ == 'q'].%s", "Strs[:2].%s", "Strs[].%s",
+	"Items[*].%s", "Items[?Name].%s", "Items[?Name == 'k'].%s", "Items[?Name == 'q'].%s", "Items[2:].%s", "Items[].%s", "Items[*].Tags[].%s", "Items[*].Tags[*].%s", "Inner.Tags[*].%s", "Inner.Tags[?@ != 'q'].%s", "Items[0].Tags[1:].%s",
+	"Items[?Tags].Tags[0:1].%s", "Nums[?%s]", "Strs[?%s]", "Items[?%s]", "Inner.Tags[?%s]", "map(&%s, Nums)", "map(&%s, Strs)", "map(&%s, Items)", "sort_by(Strs, &%s)", "sort_by(Nums, &%s)", "max_by(Nums, &%s)", "min_by(Strs, &%s)",
+	"sort_by(Items[?Name], &%s)", "reverse(Nums)[*].%s", "sort(Strs)[?@].%s", "Nums[*] | %s", "[Nums, %s]", "{a: Strs, b: %s}", "length(Nums) && %s", "contains(Strs, %s)", "join(%s, Strs)", "Items[*].[%s]", "Items[*].{a: %s}",
+	"Items[*].[Name, %s]", "Ptr.Tags[*].%s", "Ptr.%s", "Inner.%s", "Items[0].%s", "Items[1].%s", "NilPtr.%s", "Items[*].Tags[?%s]", "Nums[*].[%s]", "Nums[?@ == `3`] | %s", "Items[?Name][].%s", "Nums[:0].%s", "Strs[5:].%s"}
+
+var hwSeeds = []string{"abs('a')", "abs(@)", "length(`1`)", "nosuch(@)", "abs()", "`[1]`[::0]", "sort_by(`[1,\"a\"]`, &@)", "to_string(&@)", "merge(`{}`, `1`)", "abs(Name)", "length(Name) && abs(Name)", "not_null(Tags, `1`)[0] && abs('a')",
+	"starts_with(@, 'a')", "Tags[::0]", "join(',', @)", "max_by(`[[1]]`, &@)"}
+
+// TestC11Typed: erroring sub-expressions under every projection kind, filter, function and
+// multi-select over typed slices of numbers, strings, pointers (with a nil element) and structs.
+func TestC11Typed(t *testing.T) {
+	n := 0
+	for _, ctx := range hwStrictCtx {
+		for _, s := range hwSeeds {
+			fn := false
+			for _, f := range []string{"map(", "sort_by(", "max_by(", "min_by(", "reverse(", "sort(", "contains(", "join("} {
+				fn = fn || strings.Contains(ctx, f)
+			}
+			run(t, Case{Property: "C11", Kind: "hwstrict", Expr: fill(ctx, s), Extra: map[string]interface{}{"seed": s, "fn": fn}})
+			n++
+			// the same, one level further down
+			run(t, Case{Property: "C11", Kind: "hwstrict", Expr: fill(ctx, "[`1`, "+s+"][1]"), Extra: map[string]interface{}{"seed": s, "fn": fn}})
+			n++
+		}
+	}
+	st := statsFor("C11")
+	st.mu.Lock()
+	st.Exhaustive["C11.typed"] = fmt.Sprintf("%d contexts over typed slices/structs x %d erroring or element-dependent seeds x 2 depths: %d expressions on the hand-written struct document, judged by the reference model on its generic twin", len(hwStrictCtx), len(hwSeeds), n)
+	st.mu.Unlock()
+}
